@@ -126,11 +126,27 @@ Pep(sc, cur, t) ==
       [] t.k = "nullable" -> [k |-> "Optional", e |-> Pep(sc, cur, t.e)]
       [] t.k = "ref" -> IF sc[t.n].k = "alias" THEN Pep(sc, cur, sc[t.n].t)
                         ELSE [k |-> "cls", ns |-> IF sc[t.n].ns = cur THEN "" ELSE sc[t.n].ns, n |-> t.n]
+\* language-neutral symbolic type: like Pep but aliases stay references (some backends declare them)
+RECURSIVE Sym(_, _, _)
+Sym(sc, cur, t) ==
+    CASE t.k = "int" -> [k |-> "int", p |-> t.p] [] t.k = "float" -> [k |-> "float", p |-> t.p] [] t.k = "str" -> [k |-> "str"]
+      [] t.k = "bytes" -> [k |-> "bytes"] [] t.k = "bool" -> [k |-> "bool"] [] t.k = "ts" -> [k |-> "ts"]
+      [] t.k = "void" -> [k |-> "void"]
+      [] t.k = "list" -> [k |-> "list", e |-> Sym(sc, cur, t.e)]
+      [] t.k = "map" -> [k |-> "map", v |-> Sym(sc, cur, t.v)]
+      [] t.k = "nullable" -> [k |-> "nullable", e |-> Sym(sc, cur, t.e)]
+      [] t.k = "ref" -> [k |-> IF sc[t.n].k = "alias" THEN "alias" ELSE sc[t.n].k, ns |-> sc[t.n].ns, n |-> t.n]
+\* a declared member: name, symbolic type, nullable (possibly through an alias), has a default
+Member(sc, cur, f) == [n |-> f.n, sym |-> Sym(sc, cur, f.t), nullable |-> IsNullable(sc, f.t),
+                       dflt |-> ("d" \in DOMAIN f /\ f.d.k # "nodefault"), void |-> Unalias(sc, f.t).k = "void"]
 StructSurface(sc, n) ==
     [k |-> "struct", n |-> n, base |-> sc[n].parent,
      ctor |-> [i \in DOMAIN AllFields(sc, n) |-> AllFields(sc, n)[i].n],
      fields |-> SeqNames(AllFields(sc, n)),
-     own |-> [i \in DOMAIN sc[n].fields |-> [n |-> sc[n].fields[i].n, t |-> Pep(sc, sc[n].ns, sc[n].fields[i].t)]]]
+     own |-> [i \in DOMAIN sc[n].fields |-> [n |-> sc[n].fields[i].n, t |-> Pep(sc, sc[n].ns, sc[n].fields[i].t)]],
+     members |-> [i \in DOMAIN sc[n].fields |-> Member(sc, sc[n].ns, sc[n].fields[i])],
+     all_members |-> [i \in DOMAIN FieldsInherited(sc, n) |-> Member(sc, sc[n].ns, FieldsInherited(sc, n)[i])],
+     subs |-> sc[n].subs, is_sub_of |-> IF sc[n].parent # "" /\ HasSubs(sc, sc[n].parent) THEN TagOfSub(sc, sc[n].parent, n) ELSE ""]
 UnionSurface(sc, n) ==
     LET tags == AllTags(sc, n)
         ownT == sc[n].tags \o (IF ~sc[n].closed /\ (sc[n].parent = "" \/ ~IsOpenUnion(sc, sc[n].parent))
@@ -138,7 +154,9 @@ UnionSurface(sc, n) ==
     IN  [k |-> "union", n |-> n, base |-> sc[n].parent,
          void_tags |-> {tags[i].n : i \in {j \in DOMAIN tags : Unalias(sc, tags[j].t).k = "void"}},
          typed_tags |-> {tags[i].n : i \in {j \in DOMAIN tags : Unalias(sc, tags[j].t).k # "void"}},
-         own |-> [i \in DOMAIN ownT |-> [n |-> ownT[i].n, t |-> Pep(sc, sc[n].ns, ownT[i].t)]]]
+         own |-> [i \in DOMAIN ownT |-> [n |-> ownT[i].n, t |-> Pep(sc, sc[n].ns, ownT[i].t)]],
+         members |-> [i \in DOMAIN ownT |-> Member(sc, sc[n].ns, ownT[i])],
+         all_members |-> [i \in DOMAIN tags |-> Member(sc, sc[n].ns, tags[i])]]
 PySurface(c, ns) ==
     LET sc == Schema(c)
         mine == {n \in DOMAIN sc : sc[n].ns = ns}
@@ -148,8 +166,12 @@ PySurface(c, ns) ==
          unions  |-> {UnionSurface(sc, n) : n \in {x \in mine : sc[x].k = "union"}},
          validators |-> mine,                                          \* <Name>_validator for every type and alias
          class_aliases |-> {n \in mine : sc[n].k = "alias" /\ Under(sc, sc[n].t).k = "ref"},   \* Alias = Class
+         aliases |-> {[n |-> n, sym |-> Sym(sc, ns, sc[n].t)] : n \in {x \in mine : sc[x].k = "alias"}},
          routes |-> {[n |-> r.n, ver |-> r.ver, deprecated |-> r.dep # "none", arg |-> r.arg, res |-> r.res,
-                      err |-> r.err, style |-> r.style] : r \in rts}]
+                      err |-> r.err, style |-> r.style,
+                      \* what a client function of this route requests: URL, argument or null, attribute values
+                      url |-> [ns |-> ns, n |-> r.n, ver |-> r.ver], has_arg |-> r.arg.k # "void", attrs |-> <<r.style>>,
+                      arg_sym |-> Sym(sc, ns, r.arg), res_sym |-> Sym(sc, ns, r.res), err_sym |-> Sym(sc, ns, r.err)] : r \in rts}]
 
 \* ------------------------------------------------------------- client calls (C14)
 \* Signature: required fields positional in declaration order (ancestors first), optional ones
